@@ -1,6 +1,7 @@
-/- Driver ops for MMST.  Ops: mmst.state, mmst.step, mmst.judge, mmst.instance -/
+/- Driver ops for MMST.  Ops: mmst.state, mmst.step, mmst.judge, mmst.instance, mmst.bounds -/
 import JumanjiModel.Bridge.Json
 import JumanjiModel.Env.MMST.Model
+import JumanjiModel.Env.MMST.Bounds
 open Lean Jb
 
 namespace Jb.MMST
@@ -111,6 +112,17 @@ def opInstance : Op := fun j => do
               ("info_degree_le_max_degree_plus_1", jStr (if certDegree cfg s (maxDeg + 1) then "yes" else "no")),
               ("info_edge_count", jInt (edgeCount cfg s))])
 
+/-- C01: {cfg} → {leaf path: {"lo": rat|null, "hi": rat|null}} = `obsBounds cfg` (the intervals of
+`Props.C01.mmst_step_obs_in_bounds`) -/
+def jBounds (bs : List (String × Option Rat × Option Rat)) : Json :=
+  jObj (bs.map (fun b => (b.1, jObj [("lo", match b.2.1 with | some r => jRat r | none => .null),
+                                      ("hi", match b.2.2 with | some r => jRat r | none => .null)])))
+
+def opBounds : Op := fun j => do
+  let cfg ← getCfg (← field j "cfg")
+  pure (jBounds (obsBounds cfg))
+
 def ops : List (String × Op) :=
-  [("mmst.step", opStep), ("mmst.state", opState), ("mmst.judge", opJudge), ("mmst.instance", opInstance)]
+  [("mmst.step", opStep), ("mmst.state", opState), ("mmst.judge", opJudge), ("mmst.instance", opInstance),
+   ("mmst.bounds", opBounds)]
 end Jb.MMST
